@@ -244,6 +244,18 @@ pub struct Plan {
     /// (mode, seed, unit µs)
     #[serde(default, skip_serializing_if = "Option::is_none")]
     pub delay: Option<(String, u64, u64)>,
+    /// write failures addressed by the ordinal of the write call (`at` = 1-based ordinal)
+    #[serde(default, skip_serializing_if = "Vec::is_empty")]
+    pub failw: Vec<PointFail>,
+    /// kill at the k-th write call: before it (None) or after n bytes of it
+    #[serde(default, skip_serializing_if = "Option::is_none")]
+    pub crashw: Option<(u64, Option<u64>)>,
+    /// kill before (false) / right after (true) the j-th rename
+    #[serde(default, skip_serializing_if = "Option::is_none")]
+    pub crashr: Option<(u64, bool)>,
+    /// failure of the j-th rename: (ordinal, errno)
+    #[serde(default, skip_serializing_if = "Vec::is_empty")]
+    pub failr: Vec<(u64, i32)>,
 }
 
 impl Plan {
@@ -286,11 +298,29 @@ impl Plan {
         if let Some((m, seed, unit)) = &self.delay {
             s += &format!("delay {} {} {}\n", m, seed, unit);
         }
+        for f in &self.failw {
+            match f.after {
+                Some(k) => s += &format!("failw {} {} after {}\n", f.at, f.errno, k),
+                None => s += &format!("failw {} {}\n", f.at, f.errno),
+            }
+        }
+        if let Some((k, a)) = self.crashw {
+            match a {
+                Some(n) => s += &format!("crashw {} after {}\n", k, n),
+                None => s += &format!("crashw {}\n", k),
+            }
+        }
+        for (j, e) in &self.failr {
+            s += &format!("failr {} {}\n", j, e);
+        }
+        if let Some((j, after)) = self.crashr {
+            s += &format!("crashr {}{}\n", j, if after { " after" } else { "" });
+        }
         s
     }
     /// does this plan contain a fault that must make the run fail / die?
     pub fn has_failing(&self) -> bool {
-        !self.fails.is_empty() || !self.limits.is_empty() || self.crash.is_some() || self.fdmax.is_some()
+        !self.fails.is_empty() || !self.limits.is_empty() || self.crash.is_some() || self.fdmax.is_some() || !self.failw.is_empty() || self.crashw.is_some() || self.crashr.is_some() || !self.failr.is_empty()
     }
 }
 
